@@ -17,7 +17,8 @@ EXPLANATION = (
     "inflateCopy overwrites dest.state before returning MemError. SIB: in both alternatives of allocate_layout and "
     "allocate_layout_zeroed the usize size reaches the c_uint parameter of zalloc through a fallible conversion. Error discipline: "
     "the Result of gz_look/gz_init/gz_comp/... is discarded only in listed places. Balance over arbitrary run-time histories is not decided. "
-    "REL/end-frees: deflate::end and inflate::end reach Allocator::deallocate and null strm.state on every path to return; gzclose_r/gzclose_w call free_state on every path once the handle is admitted.")
+    "REL/end-frees: deflate::end and inflate::end reach Allocator::deallocate and null strm.state on every path to return; gzclose_r/gzclose_w call free_state on every path once the handle is admitted. "
+    "REL/gz-stream-pairing: gzclose_r/gzclose_w skip inflateEnd/deflateEnd only under the conditions that guard inflateInit2_/deflateInit2_ in gz_look/gz_init.")
 
 CLAIM = dict(
     text="Static release-on-failure (cut-set from each successful allocation to every failure exit it dominates), who-may-allocate/"
